@@ -324,6 +324,25 @@ def tr_expr(ctx, e, in_loop):
         if e.value.id not in bound and isinstance(ctx.glob.get(e.value.id), type) and e.attr in vars(ctx.glob[e.value.id]):
             return literal(vars(ctx.glob[e.value.id])[e.attr])
         return None
+    # x == x for a local x: the test "x is not NaN"
+    if isinstance(e, ast.Compare) and len(e.ops) == 1 and isinstance(e.ops[0], ast.Eq) and isinstance(e.left, ast.Name) \
+            and isinstance(e.comparators[0], ast.Name) and e.left.id == e.comparators[0].id and e.left.id in ctx.locals:
+        a = tr_expr(ctx, e.left, in_loop)
+        return None if a is None else f"ENotNaN ({a})"
+    # <chart>.stack().<column>.max() + k : the highest value of a column over all lists of the source chart
+    if isinstance(e, ast.BinOp) and isinstance(e.op, ast.Add) and isinstance(e.right, ast.Constant) \
+            and isinstance(e.right.value, int) and not isinstance(e.right.value, bool):
+        m = e.left
+        if (isinstance(m, ast.Call) and not m.args and not m.keywords and isinstance(m.func, ast.Attribute) and m.func.attr == "max"
+                and isinstance(m.func.value, ast.Attribute)
+                and isinstance(m.func.value.value, ast.Call) and not m.func.value.value.args and not m.func.value.value.keywords
+                and isinstance(m.func.value.value.func, ast.Attribute) and m.func.value.value.func.attr == "stack"
+                and chart_ok and is_name(m.func.value.value.func.value, ctx.chart_var) and ctx.chart_cls is not None):
+            from reamber.base.Map import Map
+            col = m.func.value.attr
+            if ctx.chart_cls.stack is Map.stack and any(col in declared(lc)[2] for _, lc in lists_of(ctx.chart_cls)):
+                return f"EStackMaxPlus {F.z(FR.col_id(col))} {F.z(e.right.value)}"
+        return None
     # a or b
     if isinstance(e, ast.BoolOp) and isinstance(e.op, ast.Or) and len(e.values) == 2:
         a, b = tr_expr(ctx, e.values[0], in_loop), tr_expr(ctx, e.values[1], in_loop)
@@ -537,6 +556,27 @@ def tr_stmt(ctx, s, in_loop):
             ctx.appended_map = True
             return []
         return unk
+    # if <cond>: <tgt>.<attr> = <expr>   (no else; the attribute not assigned before, its class default a literal):
+    # the same as  <tgt>.<attr> = <expr> if <cond> else <class default>
+    if isinstance(s, ast.If) and not s.orelse and len(s.body) == 1 and isinstance(s.body[0], ast.Assign) \
+            and len(s.body[0].targets) == 1 and isinstance(s.body[0].targets[0], ast.Attribute) \
+            and isinstance(s.body[0].targets[0].value, ast.Name):
+        tgt = s.body[0].targets[0]
+        var, attr = tgt.value.id, tgt.attr
+        on_map = ctx.tmap is not None and var == ctx.tmap[0]
+        on_set = ctx.tset is not None and var == ctx.tset[0]
+        if not (on_map or on_set) or (on_set and attr == "maps") or (on_map and attr in ctx.tmap[1]().objs):
+            return unk
+        c = tr_expr(ctx, s.test, in_loop)
+        dflt = tr_expr(ctx, tgt, in_loop)          # EDefault ..: only when not assigned before and a literal default
+        if c is None or dflt is None or not dflt.startswith("EDefault "):
+            return unk
+        e = tr_expr(ctx, s.body[0].value, in_loop)
+        if e is None:
+            e = f"EOpaque {coq_string(ast.unparse(s.body[0].value))}"
+            return unk                              # an opaque value under a condition is not modelled
+        ctx.assigned.add((on_set, attr))
+        return [f"SMeta {F.boolean(on_set)} {F.z(field_id(attr))} (EIf ({c}) ({e}) ({dflt}))"]
     # if raise_bad_mode and not <tgt>.<field>: raise ValueError(...)
     if isinstance(s, ast.If) and not s.orelse and len(s.body) == 1 and isinstance(s.body[0], ast.Raise):
         t = s.test
@@ -781,6 +821,8 @@ Inductive mexpr :=
 | ELen (l : Z)                       (* len(<source chart>.<l>) *)
 | EFirstOffset (l : Z)               (* <source chart>.<l>.first_offset() *)
 | EDefault (on_set : bool) (f : Z) (v : mexpr)   (* <target>.<f> read before any assignment: its class default v *)
+| EStackMaxPlus (col : Z) (k : Z)    (* <source chart>.stack().<col>.max() + k  (NaN when no list has a value) *)
+| ENotNaN (e : mexpr)                (* x == x *)
 | EOpaque (txt : string).            (* anything else: the value is not modelled *)
 Inductive msource := FromColumn (c : Z) | FromComputed (txt : string).
 Inductive step :=
